@@ -202,6 +202,15 @@ func getESDTNFTTokenOnSender(
 	if isNew {
 		return nil, ErrNewNFTDataOnSenderAddress
 	}
+	// the key is tokenID||nonce, so another token's entry can sit under it (e.g. the fungible
+	// balance of a token whose identifier ends with the nonce bytes): the entry found must be of
+	// the kind that was asked for
+	if nonce > 0 && esdtData.TokenMetaData == nil {
+		return nil, ErrNFTDoesNotHaveMetadata
+	}
+	if nonce == 0 && esdtData.TokenMetaData != nil {
+		return nil, ErrOnlyFungibleTokensHaveBalanceTransfer
+	}
 
 	return esdtData, nil
 }
